@@ -133,6 +133,12 @@ func (b *BitMatrix) FlipAll() {
 	for i := 0; i < max; i++ {
 		b.bits[i] = ^b.bits[i]
 	}
+	if shift := uint(b.width % 32); shift != 0 {
+		// keep the unused high bits of each row's last word clear
+		for y := 1; y <= b.height; y++ {
+			b.bits[y*b.rowSize-1] &= (1 << shift) - 1
+		}
+	}
 }
 
 func (b *BitMatrix) Xor(mask *BitMatrix) error {
